@@ -278,6 +278,7 @@ func checkC02(c *Check) {
 	// ---- R8 every record read from the store in a loop is decoded into its own variable
 	c.decodeTargetRule("R8", []string{"x/escrow/keeper"})
 	c.escrowExportComplete("R8")
+	c.distributeAlways("R4")
 
 	// ---- R5 SettledAt
 	nset := 0
@@ -952,5 +953,45 @@ func (c *Check) evenShareRule(name string, fn *ssa.Function, cr credit) {
 		c.Info("R4", name+": even share plus at most one unit not decided", cr.st.Pos(), "credited value "+undecided+" is not of the form share / share+1")
 	default:
 		c.Ob("R4", name+": a payee is credited the even share or the even share plus one unit", cr.st.Pos(), true, "")
+	}
+}
+
+// distributeAlways: each of the three distribution helpers hands out on every path: a return that is not behind the
+// loop over payments is allowed only where the amount to distribute is known to be zero. An early return on some other
+// condition (a zero per-payee share while a remainder is still owed) leaves the remainder unassigned; the settle core
+// then refuses to settle and every later close / withdraw of that account fails. Shared by C02-R4 and C03-R2.
+func (c *Check) distributeAlways(rule string) {
+	l := c.L
+	n := 0
+	for _, fn := range l.pkgFuncs("x/escrow/keeper") {
+		if fn.Parent() != nil || fn.Signature.Recv() != nil || !strings.HasPrefix(fn.Name(), "accountSettle") {
+			continue
+		}
+		// the loop over the payments
+		var hdr *ssa.BasicBlock
+		for _, b := range fn.Blocks {
+			if ifi, ok := b.Instrs[len(b.Instrs)-1].(*ssa.If); ok && strings.Contains(Sym(ifi.Cond), "builtin.len(p:payments)") && loopHeaderOf(b) == b {
+				hdr = b
+			}
+		}
+		if hdr == nil {
+			continue
+		}
+		n++
+		c.Analysed(fnName(fn))
+		for _, b := range fn.Blocks {
+			r, ok := b.Instrs[len(b.Instrs)-1].(*ssa.Return)
+			if !ok || hdr.Dominates(b) {
+				continue
+			}
+			zero := boolCallFactAt(b, true, func(h *ssa.Call, _ int) bool {
+				s := Sym(h.Call.Args[0])
+				return calleeMethod(h) == "IsZero" && (strings.HasSuffix(s, "amountRemaining") || strings.HasSuffix(s, "amountRemaining.Amount")) && !strings.Contains(s, "(")
+			})
+			c.Ob(rule, fn.Name()+": returns without distributing only when nothing is left to distribute", r.Pos(), zero, "the helper can return before its loop over the payments on a condition other than a zero remainder: what is still owed stays unassigned, the settlement is refused and the account can no longer be closed or withdrawn from")
+		}
+	}
+	if n < 3 {
+		c.Info(rule, "distribution helpers: fewer loops over payments found than on the pinned tree, not decided", token.NoPos, itoa(n))
 	}
 }
